@@ -266,6 +266,12 @@ func (ps *PartSet) AddPart(part *Part) (bool, error) {
 		return false, nil
 	}
 
+	// The proof must be for this part's index in a tree with this set's number of parts,
+	// otherwise a valid proof of another leaf could occupy this slot.
+	if part.Proof.Index != uint64(part.Index) || part.Proof.Total != uint64(ps.total) {
+		return false, ErrPartSetInvalidProof
+	}
+
 	// Check hash proof
 	if part.Proof.Verify(ps.Hash().Bytes(), part.Bytes) != nil {
 		return false, ErrPartSetInvalidProof
